@@ -53,6 +53,7 @@ class _FirstCause:
         self.cls = None
         self.known = False
         self.waiters = []
+        self.disc_at = None
 
     def note(self, cls) -> None:
         if not self.known and self.s.conn.connection_state is not CLOSED:
@@ -80,9 +81,27 @@ class _FirstCause:
     def before_event(self, ev) -> None:
         if ev == E.EOF:
             self.note(SocketClosedAPIError)
-        elif ev in (E.RESET, E.FORCE, E.DISCONNECT, E.CANCEL, E.CONNECT_ERR, E.RESOLVE_ERR, E.LONGWAIT, E.TIMER, E.WRITEFAIL):
+        elif ev == E.DISCONNECT and self._finish_waiting() and self.disc_at is None and not self.known:
+            # disconnect() first waits up to 5 s for the pending connect phase; if that does not finish,
+            # the timeout of that wait is the first fatal cause (the statement's constant: 5 s)
+            self.disc_at = self.s.loop.time()
+        elif ev in (E.RESET, E.FORCE, E.DISCONNECT, E.CANCEL, E.CONNECT_ERR, E.RESOLVE_ERR, E.WRITEFAIL):
             # these either carry no single specified class or their effect depends on timing
             self.note(None)
+
+    def _finish_waiting(self) -> bool:
+        return any(k == "finish" and i.get("started") and not t.done() for k, t, i in self.s.tasks)
+
+    def after_event(self, ev) -> None:
+        if self.known or self.disc_at is None:
+            return
+        if self.s.conn.connection_state is CLOSED or not self._finish_waiting():
+            self.disc_at = None
+            if self.s.conn.connection_state is CLOSED:
+                self.note(None)
+            return
+        if self.s.loop.time() >= self.disc_at + 5.0:
+            self.note(TimeoutAPIError)
 
 
 def _run(events: list) -> bool:
@@ -104,6 +123,7 @@ def _run(events: list) -> bool:
             fc.before_event(ev)
             if not s.apply(ev):
                 return True
+            fc.after_event(ev)
         if s.pending_evs:
             fc.before_chunk(s.pending_evs)
         finished = s.run_out()
